@@ -332,6 +332,58 @@ fn dir_state(dir: &str) -> Vec<(String, u64, u128)> {
     v
 }
 
+/// name -> content of every file of the work directory
+fn dir_content(dir: &str) -> std::collections::BTreeMap<String, String> {
+    std::fs::read_dir(dir)
+        .map(|rd| rd.flatten().filter_map(|e| Some((e.file_name().to_string_lossy().to_string(), String::from_utf8_lossy(&std::fs::read(e.path()).ok()?).to_string()))).collect())
+        .unwrap_or_default()
+}
+
+/// A store with changed stand-off members: what a reader leaves on disk (the first serialisation of the store writes the
+/// changed members out) must not depend on which other reader ran before it. Sequential, three fresh stores per pair.
+fn disk_effects(rep: &mut Report, dir: &str, kind: &str, ops: &[ROp]) {
+    let fresh = |tag: &str| -> (AnnotationStore, String) {
+        let d = format!("{}-{}", dir, tag);
+        (build_store_kind(&d, true, true, false), d)
+    };
+    let (s0, d0) = fresh("d0");
+    let init = dir_content(&d0);
+    let _ = run_op(&s0, ops[0]);
+    let c0 = dir_content(&d0);
+    let (s1, d1) = fresh("d1");
+    let _ = run_op(&s1, ops[1]);
+    let c1 = dir_content(&d1);
+    let (s01, d01) = fresh("d01");
+    let _ = run_op(&s01, ops[0]);
+    let _ = run_op(&s01, ops[1]);
+    let c01 = dir_content(&d01);
+    rep.eval();
+    rep.distinct(&format!("disk-effects/{}/{:?}", kind, ops));
+    for (name, before) in &init {
+        let w0 = c0.get(name) != Some(before);
+        let w1 = c1.get(name) != Some(before);
+        let w01 = c01.get(name) != Some(before);
+        let fname = name.split('.').skip(1).collect::<Vec<_>>().join(".");
+        if (w0 || w1) && !w01 {
+            rep.violation(
+                format!("C20/{}/file-not-written-after-another-reader/{}-then-{}/{}", kind, opname(ops[0]), opname(ops[1]), fname),
+                json!({"file": name, "written_by_first_alone": w0, "written_by_second_alone": w1, "written_by_first_then_second": w01}),
+            );
+        } else if w01 && c01.get(name) != c0.get(name) && c01.get(name) != c1.get(name) {
+            rep.violation(
+                format!("C20/{}/file-content-depends-on-earlier-reader/{}-then-{}/{}", kind, opname(ops[0]), opname(ops[1]), fname),
+                json!({"file": name, "first_alone": c0.get(name), "second_alone": c1.get(name), "first_then_second": c01.get(name)}),
+            );
+        }
+        if w0 || w1 {
+            rep.count(&format!("disk-effects/written/{}", fname));
+        }
+    }
+    for d in [d0, d1, d01] {
+        let _ = std::fs::remove_dir_all(&d);
+    }
+}
+
 fn opname(o: ROp) -> String {
     format!("{:?}", o)
 }
@@ -375,7 +427,7 @@ fn judge(rep: &mut Report, storekind: &str, ops: &[ROp], base: &[String], got: &
 }
 
 pub fn run(p: &Params, rep: &mut Report) {
-    rep.rule = "stores with inline members and with stand-off (@include) resources and datasets (written to the work directory and reloaded; unchanged, and changed by one more annotation); reader operations: store.to_json_string, ToJson::to_json_string on a resource and on a dataset, ToJson::to_json_file on a resource (scratch file), TextResource::to_json_string, a SELECT query, QueryResultItem::to_json_string, related_text, the .parallel() adaptors. (i) controlled schedules: each reader parks at every yield point (serialisation-mode reads and writes, changed-flag reads and writes); for every pair of operations interleavings are enumerated depth-first up to a budget and then sampled with a seeded generator; triples are sampled; (ii) stress: 4-12 free-running threads with the hook injecting yield_now and microsecond sleeps. Every result is compared with the result of the same call running alone before and after, and the hooked dump must be unchanged. distinct_nontrivial = distinct (store kind, operation tuple, interleaving trace) executed".into();
+    rep.rule = "stores with inline members and with stand-off (@include) resources and datasets (written to the work directory and reloaded; unchanged, and changed by one more annotation); reader operations: store.to_json_string, ToJson::to_json_string on a resource and on a dataset, ToJson::to_json_file on a resource (scratch file), ToCsv::to_csv_string on a dataset and on the store, TextResource::to_json_string, a SELECT query, QueryResultItem::to_json_string, related_text, the .parallel() adaptors. (i) controlled schedules: each reader parks at every yield point (serialisation-mode reads and writes, changed-flag reads and writes); for every pair of operations interleavings are enumerated depth-first up to a budget and then sampled with a seeded generator; triples are sampled; (ii) stress: 4-12 free-running threads with the hook injecting yield_now and microsecond sleeps. Every result is compared with the result of the same call running alone before and after, and the hooked dump must be unchanged; (iii) changed stand-off stores: the files a reader leaves behind must not depend on the reader that ran before it. distinct_nontrivial = distinct (store kind, operation tuple, interleaving trace) executed".into();
     rep.assumptions = vec!["yield points sit before every read or write of Config.serialize_mode and the changed flags (feature verif); other code between them is treated as atomic by the controlled schedules and exercised by the stress runs".into()];
     if let Some(v) = p.variant.as_deref() {
         if v == "miri" || v == "tsan" {
@@ -410,6 +462,12 @@ pub fn run(p: &Params, rep: &mut Report) {
         rep.current_case = json!({"index": ji, "seed": p.seed, "tier": if p.thorough { "thorough" } else { "quick" }});
         let (kind, standoff, changed) = storekinds[*sk];
         let dir = format!("{}/c20-{}-{}", p.workdir, p.shard, ji);
+        if changed {
+            disk_effects(rep, &dir, kind, ops);
+            if ops[0] != ops[1] {
+                disk_effects(rep, &dir, kind, &[ops[1], ops[0]]);
+            }
+        }
         let store = build_store_kind(&dir, standoff, changed, kind == "standoff-json-resource");
         let base: Vec<String> = ops.iter().map(|o| run_op(&store, *o)).collect();
         let dump_before = dump_of(&store);
